@@ -24,6 +24,42 @@ enum Tiny {
     Pos = 5,
 }
 
+/// Ord and PartialOrd that disagree with each other (PartialOrd is derived-ascending, Ord is
+/// hand-reversed): legal, if unwise, and it tells `cmp` implemented through `partial_cmp` apart.
+#[derive(Clone, Copy, Debug, PartialEq, Eq, Hash)]
+struct Split(u8);
+impl PartialOrd for Split {
+    fn partial_cmp(&self, o: &Split) -> Option<Ordering> {
+        Some(self.0.cmp(&o.0))
+    }
+}
+impl Ord for Split {
+    fn cmp(&self, o: &Split) -> Ordering {
+        o.0.cmp(&self.0)
+    }
+}
+
+/// total order over floats (`total_cmp`) next to the partial one: NaN is Equal to itself and
+/// ordered under `cmp`, incomparable under `partial_cmp`
+#[derive(Clone, Copy, Debug)]
+struct Tot(f64);
+impl PartialEq for Tot {
+    fn eq(&self, o: &Tot) -> bool {
+        self.0.total_cmp(&o.0) == Ordering::Equal
+    }
+}
+impl Eq for Tot {}
+impl PartialOrd for Tot {
+    fn partial_cmp(&self, o: &Tot) -> Option<Ordering> {
+        self.0.partial_cmp(&o.0)
+    }
+}
+impl Ord for Tot {
+    fn cmp(&self, o: &Tot) -> Ordering {
+        self.0.total_cmp(&o.0)
+    }
+}
+
 /// Records every call the hashed value makes.
 #[derive(Default)]
 struct RecHasher {
@@ -299,6 +335,8 @@ macro_rules! exh_lens {
         exhaustive::<String, N>($st, "String", &["".to_string(), "a".to_string(), "ab".to_string()], |a, b| { ord_pair(a, b)?; maps(&[a.clone(), b.clone()]) }, |a| hash_one(a));
         exhaustive::<i8, N>($st, "i8", &[-128i8, -1, 0, 127], |a, b| { ord_pair(a, b)?; maps(&[a.clone(), b.clone()]) }, |a| hash_one(a));
         exhaustive::<std::cmp::Reverse<u8>, N>($st, "Reverse<u8>", &[std::cmp::Reverse(0u8), std::cmp::Reverse(1), std::cmp::Reverse(255)], |a, b| { ord_pair(a, b)?; maps(&[a.clone(), b.clone()]) }, |a| hash_one(a));
+        exhaustive::<Split, N>($st, "Split(Ord reversed vs PartialOrd)", &[Split(0), Split(1), Split(9)], |a, b| { ord_pair(a, b)?; maps(&[a.clone(), b.clone()]) }, |a| hash_one(a));
+        exhaustive::<Tot, N>($st, "Tot(total_cmp Ord, partial PartialOrd)", &[Tot(f64::NAN), Tot(-0.0), Tot(0.0), Tot(1.0)], |a, b| ord_pair(a, b), |_| Ok(()));
         exhaustive::<bool, N>($st, "bool", &[false, true], |a, b| ord_pair(a, b), |a| hash_one(a));
         exhaustive::<Tiny, N>($st, "Tiny(repr i8 enum)", &[Tiny::Neg, Tiny::Zero, Tiny::Pos], |a, b| { ord_pair(a, b)?; maps(&[a.clone(), b.clone()]) }, |a| hash_one(a));
         if $v <= 3 {
